@@ -1,7 +1,10 @@
 #!/usr/bin/env python3
 """Confirm a seeded change and run every check against it.
 
-usage: seedcheck.py <dir with patch.diff + demo.diff> [--checks C01,C02,...] [--skip-tests]
+usage: seedcheck.py <dir with patch.diff + demo.diff> [--checks C01,C02,...] [--skip-tests] [--benign]
+
+--benign: the directory holds a behaviour-preserving refactoring (patch.diff only): step 1 and step 4 are run and every check
+is expected to stay silent (exit 0); `alarms` lists the checks that did not.
 
 Everything happens in a scratch git worktree of /repo under /tmp (never in /repo), removed at the end:
   1. patch applied                -> whole workspace test suite must pass           (the tests do not notice it)
@@ -45,6 +48,7 @@ def main():
     d = os.path.abspath(sys.argv[1])
     checks = ["C%02d" % i for i in range(1, 21)]
     skip_tests = "--skip-tests" in sys.argv
+    benign = "--benign" in sys.argv
     for i, a in enumerate(sys.argv):
         if a == "--checks":
             checks = sys.argv[i + 1].split(",")
@@ -65,8 +69,10 @@ def main():
         if not skip_tests:
             print("[1] suite with patch", file=sys.stderr)
             summary["suite_with_patch"] = run_tests(wt)
-            r = sh(["git", "apply", demo], wt)
-            if r.returncode != 0:
+            r = sh(["git", "apply", demo], wt) if not benign else None
+            if benign:
+                pass
+            elif r.returncode != 0:
                 summary["error"] = "demo does not apply on patched tree: " + r.stderr
             else:
                 print("[2] suite with patch+demo", file=sys.stderr)
@@ -97,6 +103,8 @@ def main():
         summary["checks"] = res
         summary["caught_by"] = [c for c in checks if res[c]["exit"] == 1]
         summary["broken_checks"] = [c for c in checks if res[c]["exit"] == 2]
+        if benign:
+            summary["alarms"] = [c for c in checks if res[c]["exit"] != 0]
     finally:
         subprocess.run(["git", "-C", REPO, "worktree", "remove", "--force", wt], capture_output=True)
         subprocess.run(["git", "-C", REPO, "worktree", "prune"], capture_output=True)
